@@ -27,32 +27,108 @@ def mirror_str(s):
 
 
 def rule_route(ctx):
+    """which theory enters which problem in which role, decided on what decompose computes: the function is evaluated and every problem it
+    builds is read off the result (`Problem::with_name(..)` followed by its `add_theory` steps), with the condition on `self.direction` under
+    which it is built.  How the code is split into helpers, closures or loops does not matter."""
     fx = ctx.facts
+    from .. import comp, leaves
+    comp.use(fx)
     b = fx.fn("decompose", impl_self=SELF)
     site = ctx.site(b)
-    chains = tasks.problem_chains(b["body"])
+    ME = ("param", "$self")
+    cv = comp.canon(sym.Eval(fx, inline_depth=0).function(b, [ME]))
+    subs = [x for x in sym.subterms(cv) if isinstance(x, tuple) and x[:1] == ("call",) and len(x) == 3 and str(x[1]).startswith("Problem::")]
+
+    def chain_of(t):
+        """[(method, other args)] from the builder call inwards, and the name, when t is a builder chain on Problem::with_name(<literal>)"""
+        steps = []
+        while isinstance(t, tuple) and t[:1] == ("call",) and str(t[1]).startswith("Problem::") and t[2]:
+            if t[1] == "Problem::with_name":
+                return (steps[::-1], t[2][0][1]) if t[2][0][:1] == ("lit",) else None
+            steps.append((t[1].split("::")[1], t[2][1:]))
+            t = t[2][0]
+        return None
+    best = {}
+    for x in subs:
+        c = chain_of(x)
+        if c and (c[1] not in best or len(c[0]) > len(best[c[1]][0])):
+            best[c[1]] = (c[0], x)
+    DIR = ("fieldof", ME, "direction")
+    dirs = fx.variants("syntax_tree::fol::sigma_0::Direction")
+
+    def sources(th):
+        found = []
+        st = set(y for y in sym.subterms(th) if isinstance(y, tuple))
+        if ("fieldof", ME, "left") in st:
+            found.append("self.left")
+        if ("fieldof", ME, "right") in st:
+            found.append("self.right")
+        if any(y[:2] == ("call", "StrongEquivalenceTask::transition_axioms") for y in st):
+            found.append("StrongEquivalenceTask::transition_axioms")
+        return tuple(found)
+
+    def role_of(cl):
+        if not (isinstance(cl, tuple) and cl[:1] == ("closure",)):
+            return None, None
+        roles = [y[2] for y in sym.subterms(cl[2]) if isinstance(y, tuple) and len(y) == 3 and y[0] == "ctor" and str(y[1]).startswith("Role::")]
+        af = [y for y in sym.subterms(cl[2]) if isinstance(y, tuple) and y[:2] == ("ctor", "AnnotatedFormula")]
+        passthrough = bool(af) and dict(af[0][2]).get("formula") in tuple(("param", n_) for n_ in cl[1]) + tuple(("proj", ("param", n_), pth) for n_ in cl[1] for pth in ((("tuple", "1"),),))
+        rs = [y[1].split("::")[1] for y in sym.subterms(cl[2]) if isinstance(y, tuple) and y[:1] == ("ctor",) and str(y[1]).startswith("Role::")]
+        return (rs[0] if len(set(rs)) == 1 else None), passthrough
+
+    def gate_of(top):
+        """the directions under which the problem built by `top` is emitted: every group of the result that holds it, its facts evaluated per direction"""
+        held = []
+
+        def groups_in(t):
+            if isinstance(t, tuple) and t[:1] == ("coll",) and len(t) == 2:
+                for src, alts in t[1]:
+                    for ts, e in alts:
+                        if top in set(y for y in sym.subterms((src, e)) if isinstance(y, tuple)):
+                            held.append(ts)
+                        groups_in(e)
+                    for s_ in src:
+                        groups_in(s_)
+            elif isinstance(t, tuple):
+                for y in t:
+                    groups_in(y)
+        groups_in(cv)
+        out = set()
+        for ts in held:
+            # the facts about the direction (those about the decomposition strategy split the same problem further and are decided by
+            # FLOW-ROUTE:decomposition); a fact that mixes the direction with something else is not understood
+            mine = []
+            for t_ in ts:
+                at_ = []
+                leaves.test_atoms(t_, at_)
+                on_dir = [a_[0] == "t" and a_[1][0] == "is" and a_[1][1] == DIR for a_ in at_]
+                if all(on_dir):
+                    mine.append((t_, at_))
+                elif any(on_dir):
+                    return None
+            for d_ in dirs:
+                asg = {a_: a_[1][2] == "Direction::" + d_ for _, at_ in mine for a_ in at_}
+                if all(leaves.test_holds(t_, asg) for t_, _ in mine):
+                    out.add(d_)
+        return out if held else None
     table = {}
-    for ch in chains:
-        rows = []
-        tail = []
-        for method, args, node in ch["steps"]:
-            if method == "add_theory":
-                th = args[0]
-                lid = local_id_of(th)
-                origin = sorted(tasks.origin_of_local(b["body"], lid)) if lid is not None else ["?"]
-                origin = [o for o in origin if o in ("self.left", "self.right") or o.endswith("transition_axioms")]
-                role = tasks.closure_role(args[1])
-                rows.append((tuple(origin), role[1] if role else None, role[2] if role else None))
-            else:
-                tail.append(method)
-        order = [m_ for m_, _, _ in ch["steps"]]
+    for name, (steps, top) in best.items():
+        rows, tail, order = [], [], ["with_name"]
+        for m_, args_ in steps:
+            order.append(m_)
+            if m_ == "add_theory" and len(args_) == 2:
+                r_, pt_ = role_of(args_[1])
+                rows.append((sources(args_[0]), r_, pt_))
+            elif not m_.startswith("decompose"):
+                tail.append(m_)
         adds = [i_ for i_, m_ in enumerate(order) if m_.startswith("add_")]
-        rest = [i_ for i_, m_ in enumerate(order) if not m_.startswith("add_") and m_ != "with_name"]
-        table[ch["name"]] = {"conds": ch["conds"], "rows": rows, "tail": tail, "tail_after_adds": bool(adds) and bool(rest) and max(adds) < min(rest), "order": order}
+        rest = [i_ for i_, m_ in enumerate(order) if not m_.startswith("add_") and m_ != "with_name" and not m_.startswith("decompose")]
+        table[name] = {"gate": gate_of(top), "rows": rows, "tail": tail, "tail_after_adds": bool(adds) and bool(rest) and max(adds) < min(rest), "order": order,
+                       "decomposed": [m_ for m_ in order if m_.startswith("decompose")]}
     ref = {
-        "forward": {"gate": "self.direction in {Direction::Forward,Direction::Universal}",
+        "forward": {"gate": {"Forward", "Universal"},
                     "rows": [(("StrongEquivalenceTask::transition_axioms",), "Axiom", True), (("self.left",), "Axiom", True), (("self.right",), "Conjecture", True)]},
-        "backward": {"gate": "self.direction in {Direction::Backward,Direction::Universal}",
+        "backward": {"gate": {"Backward", "Universal"},
                      "rows": [(("StrongEquivalenceTask::transition_axioms",), "Axiom", True), (("self.right",), "Axiom", True), (("self.left",), "Conjecture", True)]},
     }
     ctx.add("FLOW-ROUTE", "problems", sorted(table) == sorted(ref), site, "problem builder chains found: %s" % sorted(table))
@@ -60,8 +136,7 @@ def rule_route(ctx):
         got = table.get(name)
         if not got:
             continue
-        gates = [c for c, pol in got["conds"] if pol]
-        ctx.add("FLOW-ROUTE", "%s:gate" % name, gates == [r["gate"]], site, "problem `%s` is emitted iff %s (reference %s)" % (name, gates, r["gate"]))
+        ctx.add("FLOW-ROUTE", "%s:gate" % name, got["gate"] == r["gate"], site, "problem `%s` is emitted iff self.direction is one of %s (reference %s)" % (name, sorted(got["gate"] or []), sorted(r["gate"])))
         # axioms: as sets (order of axioms is immaterial), conjectures exact
         ax = sorted(x for x in got["rows"] if x[1] == "Axiom")
         cj = sorted(x for x in got["rows"] if x[1] == "Conjecture")
@@ -74,8 +149,8 @@ def rule_route(ctx):
     if "forward" in table and "backward" in table:
         f, bk = table["forward"], table["backward"]
         mf = [(tuple(MIRROR.get(o, o) for o in orig), role, pt) for orig, role, pt in f["rows"]]
-        ctx.add("FLOW-ROUTE", "mirror", sorted(mf) == sorted(bk["rows"]) and [mirror_str(c) for c, _ in f["conds"]] == [c for c, _ in bk["conds"]] or
-                sorted(mf) == sorted(bk["rows"]) and sorted(mirror_str(c).replace("{Direction::Backward,Direction::Universal}", "{Direction::Backward,Direction::Universal}") for c, _ in f["conds"]) == sorted(c for c, _ in bk["conds"]),
+        mg = {{"Forward": "Backward", "Backward": "Forward"}.get(d_, d_) for d_ in (f["gate"] or ())}
+        ctx.add("FLOW-ROUTE", "mirror", sorted(mf) == sorted(bk["rows"]) and mg == (bk["gate"] or set()),
                 site, "the backward problem is the mirror image of the forward problem under left<->right, forward<->backward")
     # decomposition dispatch
     from .. import tasks as _tasks
